@@ -6,7 +6,6 @@ export GOFLAGS=-mod=mod GOPROXY=off GOSUMDB=off GOTOOLCHAIN=local CGO_ENABLED=0
 mkdir -p work evidence
 cp /repo/go.sum harness/go.sum 2>/dev/null || true
 (cd harness && go1.26.8 build -tags verif -o ../work/extract ./cmd/extract && ../work/extract /repo ../lean/CoapVerif/Generated >/dev/null)
-(cd lean && lake build CoapVerif driver 2>&1 | tail -5)
-(cd harness && go1.26.8 build -tags verif -o ../work/hx ./cmd/hx)
-(cd harness && for p in $(ls -d h*/ 2>/dev/null); do go1.26.8 test -c -tags verif -o ../work/$(basename $p).test ./$p || exit 1; done)
+(cd lean && lake build CoapVerif $(sed -n "s/^name = \"\(drv_c[0-9]*\)\"/\1/p" lakefile.toml) 2>&1 | tail -5)
+(cd harness && go1.26.8 vet -tags verif ./... >/dev/null 2>&1 || true)
 echo setup done
